@@ -79,6 +79,10 @@ fn find(id: &str) -> Option<PropDef> {
 /// Replays every committed case under replays/<ID>/ (files named fail-* are results of earlier
 /// failing runs and are replayed too: a fixed defect must stay fixed). Returns false on failure.
 fn replay_corpus(env: &Env, def: &PropDef, rep: &Report) -> bool {
+    // SV_NO_CORPUS=1: generated search only (used to measure what the search finds by itself)
+    if std::env::var("SV_NO_CORPUS").is_ok() {
+        return true;
+    }
     let dir = env.verif_dir.join("replays").join(def.id);
     let mut files: Vec<_> = match std::fs::read_dir(&dir) {
         Ok(rd) => rd.filter_map(|e| e.ok()).map(|e| e.path()).collect(),
